@@ -258,21 +258,9 @@ def _fix_facts(X):
                 clash = True
             elif has_assign or has_raise:
                 raise E("parse_collected_tasks_with_task_marker: clash check only partly present")
-    pc = X._func(X._parse("collect.py"), "pytask_collect")
-    calls = []
-    for st in pc.body:
-        if isinstance(st, ast.Expr) and isinstance(st.value, ast.Call):
-            calls.append(ast.unparse(st.value.func))
-    want = ["_collect_from_paths", "_collect_from_tasks", "_collect_not_collected_tasks"]
-    pos = [calls.index(w) if w in calls else None for w in want]
-    if None in pos or pos != sorted(pos):
-        raise E(f"pytask_collect: collection steps changed: {calls}")
-    dup = "_fail_tasks_with_duplicated_signatures" in calls
+    steps = _collect_steps(X)
+    dup = ".dupSignatures" in steps
     if dup:
-        i = calls.index("_fail_tasks_with_duplicated_signatures")
-        ext = calls.index("session.tasks.extend") if "session.tasks.extend" in calls else None
-        if i < pos[-1] or ext is None or i > ext:
-            raise E("pytask_collect: duplicate-signature pass is not between the left-over pass and session.tasks.extend")
         body = ast.unparse(X._func(X._parse("collect.py"), "_fail_tasks_with_duplicated_signatures"))
         for needle in ("signature in seen", "seen.add(signature)", "CollectionOutcome.FAIL"):
             if needle not in body:
@@ -319,6 +307,412 @@ def _module_name_table(X) -> list[str]:
     return table
 
 
+# ------------------------------------------------------------------------------------------------------------------
+# control structure of the collection functions as data (`Generated.Col.*`, interpreted by PytaskModel/CollectGen.lean)
+# ------------------------------------------------------------------------------------------------------------------
+
+def _u(n) -> str:
+    return ast.unparse(n)
+
+
+def _walk_stmts(X, body, var: str) -> list[str]:
+    """Statements of `_not_ignored_paths`' loop body as Lean `WStmt` terms."""
+    E = X.ExtractError
+    out = []
+    for st in body:
+        if isinstance(st, ast.If):
+            t = _u(st.test)
+            if t == f"not session.hook.pytask_ignore_collect(path={var}, config=session.config)" and not st.orelse:
+                out.append(f".ifNotIgnored {_lean_wlist(_walk_stmts(X, st.body, var))}")
+            elif t == f"{var}.is_dir()":
+                out.append(f".ifDir {_lean_wlist(_walk_stmts(X, st.body, var))} {_lean_wlist(_walk_stmts(X, st.orelse, var))}")
+            elif t == f"{var} not in seen" and not st.orelse:
+                out.append(f".ifNotSeen {_lean_wlist(_walk_stmts(X, st.body, var))}")
+            else:
+                raise E(f"_not_ignored_paths: unrecognised condition `{t}`")
+        elif isinstance(st, ast.Assign) and _u(st) in (f"files_in_dir = {var}.iterdir()", f"files_in_dir = sorted({var}.iterdir())",
+                                                       f"files_in_dir = list({var}.iterdir())"):
+            continue   # folded into `.recurse` (checked there); the order of a directory listing is not modelled
+        elif isinstance(st, ast.Expr) and isinstance(st.value, ast.YieldFrom):
+            c = _u(st.value.value)
+            if c not in ("_not_ignored_paths(files_in_dir, session, seen)", "_not_ignored_paths(files_in_dir, session)"):
+                raise E(f"_not_ignored_paths: unrecognised recursion `{c}`")
+            out.append(".recurse")
+        elif isinstance(st, ast.Expr) and _u(st) == f"seen.add({var})":
+            out.append(".addSeen")
+        elif isinstance(st, ast.Expr) and isinstance(st.value, ast.Yield) and _u(st.value.value) == var:
+            out.append(".yieldPath")
+        else:
+            raise E(f"_not_ignored_paths: unrecognised statement `{_u(st)}`")
+    return out
+
+
+def _lean_wlist(xs) -> str:
+    return "[" + ", ".join(x if x.startswith(".") and " " not in x else f"({x})" for x in xs) + "]"
+
+
+def _walk_facts(X):
+    E = X.ExtractError
+    mod = X._parse("collect.py")
+    fn = X._func(mod, "_not_ignored_paths")
+    loops = [b for b in fn.body if isinstance(b, ast.For)]
+    rest = [b for b in fn.body if not isinstance(b, ast.For) and not (isinstance(b, ast.Expr) and isinstance(b.value, ast.Constant))]
+    if len(loops) != 1 or rest or _u(loops[0].iter) != "paths" or loops[0].orelse:
+        raise E("_not_ignored_paths: expected exactly one `for path in paths` loop")
+    body = _walk_stmts(X, loops[0].body, _u(loops[0].target))
+    # the caller: which list of paths is walked, and with which initial `seen`
+    cf = X._func(mod, "_collect_from_paths")
+    dedup = None
+    for n in ast.walk(cf):
+        if isinstance(n, ast.For) and isinstance(n.iter, ast.Call) and _u(n.iter.func) == "_not_ignored_paths":
+            arg0 = _u(n.iter.args[0])
+            if arg0 == "session.config['paths']":
+                dedup = False
+            elif arg0 == "paths":
+                src = [_u(a.value) for a in ast.walk(cf) if isinstance(a, ast.Assign) and _u(a.targets[0]) == "paths"]
+                if src == ["list(dict.fromkeys(session.config['paths']))"]:
+                    dedup = True
+            if len(n.iter.args) >= 3 and _u(n.iter.args[2]) != "set()":
+                raise E(f"_collect_from_paths: initial seen is {_u(n.iter.args[2])}")
+    if dedup is None:
+        raise E("_collect_from_paths: call of _not_ignored_paths not recognised")
+    return body, dedup
+
+
+def _collect_steps(X):
+    E = X.ExtractError
+    fn = X._func(X._parse("collect.py"), "pytask_collect")
+    known = {"_collect_from_paths(session)": ".paths", "_collect_from_tasks(session)": ".tasks",
+             "_collect_not_collected_tasks(session)": ".leftovers", "_fail_tasks_with_duplicated_signatures(session)": ".dupSignatures"}
+    out = []
+    for st in fn.body:
+        src = _u(st)
+        if isinstance(st, ast.Expr) and isinstance(st.value, ast.Constant):
+            continue
+        if src == "session.collection_start = time.time()":
+            continue
+        if src in known:
+            out.append(known[src])
+        elif isinstance(st, ast.Expr) and src.startswith("session.tasks.extend("):
+            if "i.outcome == CollectionOutcome.SUCCESS and isinstance(i.node, PTask)" not in src or "for i in session.collection_reports" not in src:
+                raise E(f"pytask_collect: session.tasks is filled differently: {src}")
+            out.append(".extendTasks")
+        elif isinstance(st, ast.Try) and "pytask_collect_modify_tasks" in src:
+            out.append(".modifyTasks")
+        elif isinstance(st, ast.Expr) and src.startswith("session.hook.pytask_collect_log("):
+            out.append(".log")
+        elif isinstance(st, ast.Return):
+            continue
+        else:
+            raise E(f"pytask_collect: unrecognised statement `{src[:80]}`")
+    for need in (".paths", ".tasks", ".leftovers", ".extendTasks", ".modifyTasks", ".log"):
+        if out.count(need) != 1:
+            raise E(f"pytask_collect: step {need} occurs {out.count(need)} times")
+    return out
+
+
+def _arg_arms(X):
+    E = X.ExtractError
+    fn = X._func(X._parse("task_utils.py"), "_arg_value_to_id_component")
+    stmts = [b for b in fn.body if not (isinstance(b, ast.Expr) and isinstance(b.value, ast.Constant))]
+    if len(stmts) != 3 or _u(stmts[0]) != "id_component = id_func(arg_value) if id_func is not None else None" or not isinstance(stmts[1], ast.If) \
+            or _u(stmts[2]) != "return id_component":
+        raise E("_arg_value_to_id_component: shape changed")
+    arms = []
+    node = stmts[1]
+    while True:
+        t = _u(node.test)
+        body = [_u(b) for b in node.body]
+        m = {"isinstance(id_component, (bool, float, int, str))": ".idFuncScalar", "isinstance(arg_value, (bool, float, int, str))": ".valueScalar"}
+        # the tuple of types is emitted separately (idScalarTypes); both tests must use the same tuple
+        import re as _re
+        tt = _re.sub(r"\(([a-z, ]+)\)\)$", "(TYPES))", t)
+        if tt == "isinstance(id_component, (TYPES))":
+            test = ".idFuncScalar"
+        elif tt == "isinstance(arg_value, (TYPES))":
+            test = ".valueScalar"
+        else:
+            raise E(f"_arg_value_to_id_component: unrecognised test `{t}`")
+        res = {"id_component = str(id_component)": ".strIdFunc", "id_component = str(arg_value)": ".strValue",
+               "id_component = arg_name + str(i)": ".nameIndex"}.get(body[0] if len(body) == 1 else "")
+        if res is None:
+            raise E(f"_arg_value_to_id_component: unrecognised arm body {body}")
+        arms.append(f"({test}, {res})")
+        if len(node.orelse) == 1 and isinstance(node.orelse[0], ast.If):
+            node = node.orelse[0]
+            continue
+        body = [_u(b) for b in node.orelse]
+        res = {"id_component = str(id_component)": ".strIdFunc", "id_component = str(arg_value)": ".strValue",
+               "id_component = arg_name + str(i)": ".nameIndex"}.get(body[0] if len(body) == 1 else "")
+        if res is None:
+            raise E(f"_arg_value_to_id_component: unrecognised else arm {body}")
+        arms.append(f"(.otherwise, {res})")
+        break
+    # the only caller passes id_func=None
+    gi = _u(X._func(X._parse("task_utils.py"), "_generate_ids_for_tasks"))
+    if "id_func=None" not in gi:
+        raise E("_generate_ids_for_tasks: id_func is no longer None")
+    return arms
+
+
+def _id_arms(X):
+    E = X.ExtractError
+    fn = X._func(X._parse("task_utils.py"), "_generate_ids_for_tasks")
+    src0 = [_u(b) for b in fn.body if not (isinstance(b, ast.Expr) and isinstance(b.value, ast.Constant))]
+    if src0[0] != "parameters = inspect.signature(tasks[0][1]).parameters" or src0[1] != "out = {}" or src0[-1] != "return out":
+        raise E("_generate_ids_for_tasks: prologue / epilogue changed")
+    loop = [b for b in fn.body if isinstance(b, ast.For)]
+    if len(loop) != 1 or _u(loop[0].target) != "(i, (name, task))" or _u(loop[0].iter) != "enumerate(tasks)":
+        raise E("_generate_ids_for_tasks: loop header changed")
+    body = loop[0].body
+    arms = []
+    node = body[0]
+    if not isinstance(node, ast.If):
+        raise E("_generate_ids_for_tasks: loop does not start with the id selection")
+    while True:
+        t = _u(node.test)
+        if t == "task.pytask_meta.id_ is not None":
+            arms.append(".explicitId")
+        elif t == "not parameters":
+            arms.append(".noParams")
+        else:
+            raise E(f"_generate_ids_for_tasks: unrecognised test `{t}`")
+        if len(node.orelse) == 1 and isinstance(node.orelse[0], ast.If):
+            node = node.orelse[0]
+            continue
+        els = "\n".join(_u(b) for b in node.orelse)
+        if "_arg_value_to_id_component(" not in els or "for parameter in parameters" not in els or "task.pytask_meta.kwargs.get(parameter)" not in els:
+            raise E("_generate_ids_for_tasks: else arm changed")
+        arms.append(".fromArgs")
+        break
+    rest = body[1:]
+    dup = False
+    if len(rest) == 2 and isinstance(rest[0], ast.If) and _u(rest[0].test) == "id_ in out" and any(isinstance(x, ast.Raise) for x in rest[0].body) \
+            and _u(rest[1]) == "out[id_] = task":
+        dup = True
+    elif len(rest) == 1 and _u(rest[0]) == "out[id_] = task":
+        dup = False
+    else:
+        raise E("_generate_ids_for_tasks: loop tail changed")
+    return arms, dup
+
+
+def _parse_loop(X):
+    E = X.ExtractError
+    fn = X._func(X._parse("task_utils.py"), "parse_collected_tasks_with_task_marker")
+    src = [_u(b) for b in fn.body if not (isinstance(b, ast.Expr) and isinstance(b.value, ast.Constant))]
+    want_head = ["parsed_tasks = _parse_tasks_with_preliminary_names(tasks)", "all_names = {i[0] for i in parsed_tasks}",
+                 "duplicated_names = find_duplicates([i[0] for i in parsed_tasks])"]
+    if src[:3] != want_head or src[-1] != "return collected_tasks":
+        raise E("parse_collected_tasks_with_task_marker: prologue / epilogue changed")
+    loop = [b for b in fn.body if isinstance(b, ast.For)]
+    if len(loop) != 1 or _u(loop[0].target) != "name" or _u(loop[0].iter) != "all_names":
+        raise E("parse_collected_tasks_with_task_marker: loop header changed")
+    steps = []
+    for st in loop[0].body:
+        u = _u(st)
+        if isinstance(st, ast.If) and _u(st.test) == "name in duplicated_names":
+            b = [_u(x) for x in st.body]
+            e = [_u(x) for x in st.orelse]
+            old = b == ["selected_tasks = [i for i in parsed_tasks if i[0] == name]", "names_to_functions = _generate_ids_for_tasks(selected_tasks)",
+                        "collected_tasks.update(names_to_functions)"] and e == ["collected_tasks[name] = next((i[1] for i in parsed_tasks if i[0] == name))"]
+            new = b == ["selected_tasks = [i for i in parsed_tasks if i[0] == name]", "names_to_functions = _generate_ids_for_tasks(selected_tasks)"] \
+                and e == ["names_to_functions = {name: next((i[1] for i in parsed_tasks if i[0] == name))}"]
+            if new:
+                steps += [".ifDuplicatedGenerate", ".elseFirst"]
+            elif old:
+                steps += [".ifDuplicatedGenerate", ".elseFirst", ".update"]
+            else:
+                raise E("parse_collected_tasks_with_task_marker: branch on duplicated names changed")
+        elif u.replace(" ", "") == "clashing_names=collected_tasks.keys()&names_to_functions.keys()":
+            continue
+        elif isinstance(st, ast.If) and _u(st.test) == "clashing_names" and any(isinstance(x, ast.Raise) for x in st.body):
+            steps.append(".clashRaise")
+        elif u == "collected_tasks.update(names_to_functions)":
+            steps.append(".update")
+        else:
+            raise E(f"parse_collected_tasks_with_task_marker: unrecognised statement `{u[:80]}`")
+    return steps
+
+
+def _modname_steps(X):
+    E = X.ExtractError
+    fn = X._func(X._parse("path.py"), "_module_name_from_path")
+    out = []
+    for st in fn.body:
+        u = _u(st)
+        if isinstance(st, ast.Expr) and isinstance(st.value, ast.Constant):
+            continue
+        if u == "path = path.with_suffix('')":
+            out.append(".stripSuffix")
+        elif isinstance(st, ast.Try):
+            b, h, e = [_u(x) for x in st.body], st.handlers, [_u(x) for x in st.orelse]
+            if b == ["relative_path = path.relative_to(root)"] and len(h) == 1 and _u(h[0].type) == "ValueError" \
+                    and [_u(x) for x in h[0].body] == ["path_parts = path.parts[1:]"] and e == ["path_parts = relative_path.parts"]:
+                out.append(".relativeToRootElseDropFirst")
+            else:
+                raise E("_module_name_from_path: relative_to block changed")
+        elif isinstance(st, ast.If):
+            t = st.test
+            if (isinstance(t, ast.BoolOp) and isinstance(t.op, ast.And) and len(t.values) == 2 and isinstance(t.values[0], ast.Compare)
+                    and _u(t.values[0].left) == "len(path_parts)" and isinstance(t.values[0].ops[0], ast.GtE) and isinstance(t.values[0].comparators[0], ast.Constant)
+                    and _u(t.values[1]) == "path_parts[-1] == '__init__'" and [_u(x) for x in st.body] == ["path_parts = path_parts[:-1]"] and not st.orelse):
+                out.append(f".dropInit {t.values[0].comparators[0].value}")
+            else:
+                raise E(f"_module_name_from_path: unrecognised condition `{_u(t)}`")
+        elif isinstance(st, ast.Assign) and _u(st.targets[0]) == "path_parts" and _u(st.value).startswith("tuple("):
+            out.append(".normalise")    # the table itself is `moduleNameNormalised`
+        elif u == "return '.'.join(path_parts)":
+            out.append(".joinDot")
+        else:
+            raise E(f"_module_name_from_path: unrecognised statement `{u[:80]}`")
+    return out
+
+
+def _import_steps(X):
+    E = X.ExtractError
+    fn = X._func(X._parse("path.py"), "import_path")
+    out = []
+
+    def cache_check(st):
+        return (isinstance(st, ast.With) and _u(st.items[0].context_expr) == "contextlib.suppress(KeyError)"
+                and [_u(x) for x in st.body] == ["return sys.modules[module_name]"])
+
+    for st in fn.body:
+        u = _u(st)
+        if isinstance(st, ast.Expr) and isinstance(st.value, ast.Constant):
+            continue
+        if isinstance(st, ast.Try):
+            if [_u(x) for x in st.body] != ["pkg_root, module_name = _resolve_pkg_root_and_module_name(path)"] or len(st.handlers) != 1 \
+                    or _u(st.handlers[0].type) != "CouldNotResolvePathError" or [_u(x) for x in st.handlers[0].body] != ["pass"]:
+                raise E("import_path: package-name block changed")
+            out.append(".tryPkgName")
+            for e in st.orelse:
+                ue = _u(e)
+                if cache_check(e):
+                    out.append(".cachePkg")
+                elif ue == "mod = _import_module_using_spec(module_name, path, pkg_root)":
+                    out.append(".importUsingSpec")
+                elif isinstance(e, ast.If) and _u(e.test) == "mod is not None" and [_u(x) for x in e.body] == ["return mod"]:
+                    out.append(".returnIfModule")
+                else:
+                    raise E(f"import_path: unrecognised statement in the package branch `{ue[:80]}`")
+        elif u == "module_name = _module_name_from_path(path, root)":
+            out.append(".nameFromPath")
+        elif cache_check(st):
+            out.append(".cachePath")
+        elif u == "spec = importlib.util.spec_from_file_location(module_name, str(path))":
+            out.append(".specFromFile")
+        elif isinstance(st, ast.If) and _u(st.test) == "spec is None" and any(isinstance(x, ast.Raise) for x in st.body):
+            out.append(".raiseIfNoSpec")
+        elif u in ("mod = importlib.util.module_from_spec(spec)", "sys.modules[module_name] = mod"):
+            continue
+        elif u == "spec.loader.exec_module(mod)":
+            out.append(".execModule")
+        elif u == "_insert_missing_modules(sys.modules, module_name)":
+            out.append(".insertMissing")
+        elif u == "return mod":
+            out.append(".returnModule")
+        else:
+            raise E(f"import_path: unrecognised statement `{u[:80]}`")
+    # _import_module_using_spec: search location and fallback
+    sp = _u(X._func(X._parse("path.py"), "_import_module_using_spec"))
+    for needle in ("meta_importer.find_spec(module_name, [str(module_location)])", "spec = importlib.util.spec_from_file_location(module_name, str(module_path))",
+                   "if spec is not None:", "sys.modules[module_name] = mod", "return None"):
+        if needle not in sp:
+            raise E(f"_import_module_using_spec: `{needle}` not found")
+    return out
+
+
+def _short_filter(X):
+    E = X.ExtractError
+    fn = X._func(X._parse("collect.py"), "_find_shortest_uniquely_identifiable_name_for_tasks")
+    conds = None
+    for n in ast.walk(fn):
+        if isinstance(n, ast.Assign) and _u(n.targets[0]) == "id_to_task" and isinstance(n.value, ast.DictComp):
+            dc = n.value
+            if _u(dc.key) != "task.name" or _u(dc.value) != "task" or len(dc.generators) != 1 or _u(dc.generators[0].iter) != "tasks":
+                raise E("shortest names: id_to_task comprehension changed")
+            conds = []
+            for c in dc.generators[0].ifs:
+                parts = c.values if isinstance(c, ast.BoolOp) and isinstance(c.op, ast.And) else [c]
+                for q in parts:
+                    uq = _u(q)
+                    if uq == "isinstance(task, Task)":
+                        conds.append(".isTask")
+                    elif uq == "task.name == task.path.as_posix() + '::' + task.base_name":
+                        conds.append(".hasFullName")
+                    else:
+                        raise E(f"shortest names: unrecognised filter `{uq}`")
+    if conds is None:
+        # the same written as a loop: `for task in tasks: if <conds>: id_to_task[task.name] = task`
+        for n in ast.walk(fn):
+            if isinstance(n, ast.For) and _u(n.iter) == "tasks" and _u(n.target) == "task" and len(n.body) == 1 and isinstance(n.body[0], ast.If) \
+                    and [_u(x) for x in n.body[0].body] == ["id_to_task[task.name] = task"] and not n.body[0].orelse:
+                c = n.body[0].test
+                conds = []
+                for q in (c.values if isinstance(c, ast.BoolOp) and isinstance(c.op, ast.And) else [c]):
+                    uq = _u(q)
+                    if uq == "isinstance(task, Task)":
+                        conds.append(".isTask")
+                    elif uq == "task.name == task.path.as_posix() + '::' + task.base_name":
+                        conds.append(".hasFullName")
+                    else:
+                        raise E(f"shortest names: unrecognised filter `{uq}`")
+    if conds is None:
+        raise E("shortest names: id_to_task is neither a dict comprehension nor a loop over tasks")
+    src = _u(fn)
+    for needle in ("'/'.join(task.path.parts[-n_parts:]) + '::' + task.base_name", "duplicates = find_duplicates(dupl_id_to_short_id.values())",
+                   "if short_id not in duplicates:", "id_to_short_id[id_] = task.name"):
+        if needle not in src:
+            raise E(f"shortest names: `{needle}` not found")
+    return conds
+
+
+def collect_gen_lines(X) -> list[str]:
+    wbody, dedup = _walk_facts(X)
+    steps = _collect_steps(X)
+    arms = _arg_arms(X)
+    idarms, iddup = _id_arms(X)
+    ploop = _parse_loop(X)
+    msteps = _modname_steps(X)
+    isteps = _import_steps(X)
+    sconds = _short_filter(X)
+    L = ["/-! Control structure of the collection functions, read from the source (interpreted by `PytaskModel/CollectGen.lean`). -/",
+         "namespace Col",
+         "inductive WStmt | ifNotIgnored (body : List WStmt) | ifDir (thenB elseB : List WStmt) | ifNotSeen (body : List WStmt) | recurse | addSeen | yieldPath",
+         "inductive CStep | paths | tasks | leftovers | dupSignatures | extendTasks | modifyTasks | log",
+         "deriving DecidableEq",
+         "inductive ArgTest | idFuncScalar | valueScalar | otherwise",
+         "inductive ArgRes | strIdFunc | strValue | nameIndex",
+         "inductive IdArm | explicitId | noParams | fromArgs",
+         "inductive PStep | ifDuplicatedGenerate | elseFirst | clashRaise | update",
+         "inductive MStep | stripSuffix | relativeToRootElseDropFirst | dropInit (minLen : Nat) | normalise | joinDot",
+         "inductive IStep | tryPkgName | cachePkg | importUsingSpec | returnIfModule | nameFromPath | cachePath | specFromFile | raiseIfNoSpec | execModule | insertMissing | returnModule",
+         "inductive SFilter | isTask | hasFullName",
+         "/-- loop body of `_not_ignored_paths` (collect.py). -/",
+         f"def walkBody : List WStmt := {_lean_wlist(wbody)}",
+         "/-- `_collect_from_paths` removes repeated path arguments before the walk. -/",
+         f"def walkDedupsPaths : Bool := {X.lean_bool(dedup)}",
+         "/-- statements of `pytask_collect` in source order. -/",
+         f"def collectSteps : List CStep := [{', '.join(steps)}]",
+         "/-- arms of `_arg_value_to_id_component` (`id_func` is `None` at its only call site). -/",
+         f"def argArms : List (ArgTest × ArgRes) := [{', '.join(arms)}]",
+         "/-- id selection of `_generate_ids_for_tasks` and whether a repeated id raises. -/",
+         f"def idArms : List IdArm := [{', '.join(idarms)}]",
+         f"def idDupRaises : Bool := {X.lean_bool(iddup)}",
+         "/-- loop body of `parse_collected_tasks_with_task_marker` (over the set `all_names`). -/",
+         f"def parseLoop : List PStep := [{', '.join(ploop)}]",
+         "/-- statements of `_module_name_from_path`. -/",
+         f"def modNameSteps : List MStep := [{', '.join(msteps)}]",
+         "/-- statements of `import_path`. -/",
+         f"def importSteps : List IStep := [{', '.join(isteps)}]",
+         "/-- which tasks enter `id_to_task` in `_find_shortest_uniquely_identifiable_name_for_tasks`. -/",
+         f"def shortFilter : List SFilter := [{', '.join(sconds)}]",
+         "end Col", ""]
+    return L
+
+
 def collect_section() -> list[str]:
     X = _api()
     E = X.ExtractError
@@ -354,5 +748,7 @@ def collect_section() -> list[str]:
     L.append(f"def parseClashCheck : Bool := {X.lean_bool(clash)}")
     L.append("/-- `pytask_collect` runs `_fail_tasks_with_duplicated_signatures` after the left-over pass (fix of F8b). -/")
     L.append(f"def collectDupSignaturePass : Bool := {X.lean_bool(dup)}")
+    L.append("")
+    L += collect_gen_lines(X)
     L.append("")
     return L
